@@ -199,6 +199,17 @@ def check_case(ctx, cfg, seed):
                 for r in range(W_):
                     got = rr.res[r]['ops'][ci]['state_layers'] or {}
                     ctx.compare('neox-ckpt-values', dict(case, rank=r), mo_vals, ','.join(prov(k, *got[k]) for k in sorted(got)))
+            elif cfg.ckpt_dir is not None and not any(o in ('v', 'l1', 'l0') for o in cfg.ops[ci + 1:]) and os.path.isdir(cfg.ckpt_dir):
+                # directory mode: one file per layer, written by the layer's inverse worker — the same data flow with the
+                # directory in the place of the gathered dict (read back after the run; no later checkpoint rewrote the files)
+                got = {}
+                for k in sorted(os.listdir(cfg.ckpt_dir)):
+                    try:
+                        sd = torch.load(os.path.join(cfg.ckpt_dir, k))
+                        got[k] = (sd['A'], sd['G'])
+                    except Exception:  # noqa: BLE001
+                        got[k] = (None, None)
+                ctx.compare('neox-ckpt-values', dict(case, mode='directory'), mo_vals, ','.join(prov(k, *got[k]) for k in sorted(got)))
             if cfg.ops[ci] in ('l1', 'l0'):
                 rows = []
                 for r in range(W_):
